@@ -977,7 +977,8 @@ impl WmoWriter {
             0
         };
 
-        let total_size = 32 + vertices_size + tile_flags_size; // 32 bytes for header
+        // The header written below is four u32 fields and a six-float bounding box: 40 bytes
+        let total_size = 40 + vertices_size + tile_flags_size;
 
         let header = ChunkHeader {
             id: chunks::MLIQ,
